@@ -102,6 +102,14 @@ Theorem C01_skeleton :
   extractor_new_ok skel_extractor_new && async_worker_ok skel_async_worker = true.
 Proof. vm_compute. reflexivity. Qed.
 
+(* translator obligation for "the reported totals equal the true counts": the totals are what the LAST frame
+   shows. The commands draw through helpers.RunAggregationLoop; its regenerated skeleton must hand every
+   batch to the aggregator and, after the batch channel has closed and the refresh goroutine has been told
+   to stop (an unbuffered send), draw once more, unconditionally (agg_loop_ok; the transition system over
+   this structure and its theorems are C05's) *)
+Theorem C01_final_frame_skeleton : agg_loop_ok skel_agg_loop = true.
+Proof. vm_compute. reflexivity. Qed.
+
 (* non-vacuity: a two-source system has an enabled first step *)
 Example C01_example_step :
   exists s', step nat (fun _ => Mat 0) {| nreaders := 1; chcap := 1; rcap := 5 |}
